@@ -606,6 +606,9 @@ def nestedfree(run, fx):
                 fe = [e for e in calls_in(fn, 'free') if e.get('args') and fn.strip_all_casts(fn.N(e['args'][0]))['k'] == 'ArraySubscriptExpr'
                       and fn.strip_all_casts(fn.N(fn.strip_all_casts(fn.N(e['args'][0]))['c'][0])).get('d') == F_]
                 if fw and not fe:
+                    # GlyphCache's constructor gives its fresh index up when not even glyph 0 could be loaded: nothing hangs from it yet
+                    if fn.q.endswith('GlyphCache::GlyphCache') and any('glyph(0)' in f_[0] and f_[1] == '==' and f_[2] == '0' for f_ in dom.facts_at(fn, fw[0]['i'])):
+                        continue
                     bad.append((fn, fw[0], F_, dt))
     inst = 'an array of owned blocks is given up only together with its blocks'
     if n < 1:
@@ -1214,6 +1217,10 @@ def dtorguards(run, fx):
                 txt = f[0] + ' ' + f[2]
                 if '.end()' in txt or '.begin()' in txt:
                     continue                    # the loop over a member container
+                sides = [f[0], f[2]]
+                loc_ = [x_ for x_ in sides if 'this->' not in x_ and x_.isidentifier()]
+                if loc_ and any(u_['k'] == 'UnaryOperator' and u_.get('op') in ('pre++', 'post++', 'pre--', 'post--') and fn.render(fn.strip(u_['c'][0])) == loc_[0] for _, u_ in fn.elements()):
+                    continue                    # `i != _num_glyphs`: the bound of a counting loop over the member's elements
                 for g in _re.findall(r'this->(\w+)', txt):
                     if g not in flds and (fn.q, g) not in DTOR_GUARDS_OK:
                         bad.append((fn, e, g, f))
